@@ -56,7 +56,8 @@ prop("C02", engine="eval", prefixes=["C02."], level="model_checking",
 prop("C05", engine="eval", prefixes=["C05."], level="model_checking",
      mc=("MxEval", "MC_MxEval_quick.cfg", "MC_MxEval_thorough.cfg"),
      jobs=lambda tier: [("fail", dict(gen=dict(p_raise=0.2, p_none=0.1, p_catch=0.2, p_base_exc=0.3))),
-                        ("fail", dict(gen=dict(p_raise=0.1, p_none=0.05, p_base_exc=0.2), maxdepth=3))],
+                        ("fail", dict(gen=dict(p_raise=0.1, p_none=0.05, p_base_exc=0.2), maxdepth=3)),
+                        ("fail", dict(gen=dict(p_raise=0.25, p_catch=0.1, p_rr=0.3, p_base_exc=0.2)))],
      quick=dict(traces=96, nops=25), thorough=dict(traces=2400, nops=40))
 prop("C06", engine="eval", prefixes=["C06."], level="model_checking",
      mc=("MxEval", "MC_MxEval_quick.cfg", "MC_MxEval_thorough.cfg"),
@@ -78,8 +79,9 @@ prop("C09", engine="eval", prefixes=["C09."], level="model_checking",
 prop("C17", engine="eval", prefixes=["C17."], level="model_checking",
      mc=("MxEval", "MC_MxEval_quick.cfg", "MC_MxEval_thorough.cfg"),
      jobs=lambda tier: [("fail", dict(gen=dict(p_raise=0.25, p_none=0.1, p_catch=0.25))),
-                        ("fail", dict(gen=dict(p_raise=0.15, p_uncached=0.5, p_catch=0.2)))],
-     quick=dict(traces=96, nops=25), thorough=dict(traces=2400, nops=40))
+                        ("fail", dict(gen=dict(p_raise=0.15, p_uncached=0.5, p_catch=0.2))),
+                        ("fail", dict(gen=dict(p_raise=0.3, p_catch=0.15, p_rr=0.3)))],
+     quick=dict(traces=144, nops=25), thorough=dict(traces=3600, nops=40))
 
 
 INH_ASSUME = EVAL_COMMON_ASSUME + [
